@@ -88,4 +88,13 @@ theorem C10_fragment_literals_preserved (e : Env) (fuel : Nat) (ctx : Ctx) (hctx
     litText (best w 0 [⟨0, .brk, d.fam u⟩]) = (specLit n).toList :=
   (routeM_expr e fuel ctx hctx n hx hq d k k' h u w).2.2.2.1
 
+/-- The same for literals in math (strings, numbers, identifiers inside equations): in a math-mode
+context, for every expression of the math fragment the rendered layout contains every literal character
+for character and in order. -/
+theorem C10_fragment_math_literals_preserved (e : Env) (fuel : Nat) (ctx : Ctx) (hm : ctx.mode = .math) (n : ANode)
+    (hx : isExpr n = true) (hq : inFragM n = true)
+    (d : Twin.Doc) (k k' : St) (h : ((knot e fuel).expr ctx n).run k = .ok (d, k')) (u w : Nat) :
+    litText (best w 0 [⟨0, .brk, d.fam u⟩]) = (specLit n).toList :=
+  (routeM_math_expr e fuel ctx hm n hx hq d k k' h u w).2.2.2.1
+
 end Typstyle
